@@ -56,7 +56,9 @@ def judge(ctx, trace_path, shards, tag):
         return [], [], 0
     # split at Case records
     starts = [k for k, r in enumerate(recs) if r["ev"] == "Case"]
-    shards = max(1, min(shards, len(starts), (len(recs) + 1499) // 1500))   # a JVM start costs ~3 s
+    # a JVM start costs ~3 s; the machine is shared: at most 3 (quick) / 6 (thorough) JUDGE processes at a time
+    cap = int(os.environ.get("VERIF_JUDGE_SHARDS") or (6 if ctx.thorough else 3))
+    shards = max(1, min(shards, cap, len(starts), (len(recs) + 1499) // 1500))
     per = (len(starts) + shards - 1) // shards
     cuts = [starts[k] for k in range(0, len(starts), per)] + [len(recs)]
     base = open(os.path.join(vlib.SPEC_DIR, "CommentSyncTrace.tla")).read()
